@@ -7,7 +7,7 @@ HERE = os.path.dirname(os.path.dirname(os.path.abspath(__file__)))
 CHECKS = {
  "C13": ("svcmon", "exploration",
          "runtime monitor: Go race detector on the real server under concurrent clients and hook delays + per-request oracle + event-log interleaving coverage",
-         "A -race -tags verif build of the server is driven by rounds of 2..16 clients released together, under three hook-delay profiles that widen the read/decode/prove/write windows; requests include equal-length valid bodies, bodies arriving in two TCP segments and valid/invalid twins with the same input hash; the rounds are repeated on the plain binary; causal oracles: while one client's upload is pending inside the handler the others must be answered, and after clients hung up on complete requests the next requests must be answered. Every response is judged by its own request's oracle (proof verifies for THIS hash; deterministic error bodies equal the response the same request gets alone) and the race log must be empty. Evidence reports client/server-side overlap and distinct interleaving signatures. Held on the schedules produced.",
+         "A -race -tags verif build of the server is driven by rounds of 2..16 clients released together, under three hook-delay profiles that widen the read/decode/prove/write windows and a barrier profile that releases handlers in pairs right before a proof is serialised and written; requests include equal-length valid bodies, bodies arriving in two TCP segments and valid/invalid twins with the same input hash; the rounds are repeated on the plain binary; causal oracles: while one client's upload is pending inside the handler the others must be answered, and after clients hung up on complete requests the next requests must be answered. Every response is judged by its own request's oracle (proof verifies for THIS hash; deterministic error bodies equal the response the same request gets alone) and the race log must be empty. Evidence reports client/server-side overlap and distinct interleaving signatures. Held on the schedules produced.",
          "Schedules are those the OS and the delay profiles produced; the race detector only sees executed accesses.",
          "DESIGN.md §C13"),
  "C14": ("svcmon", "exploration",
@@ -22,7 +22,7 @@ CHECKS = {
          "DESIGN.md §C09"),
  "C20": ("svcmon", "exploration",
          "runtime monitor: recorded request/scrape history checked with porcupine against a per-(method,code) counter model + conservation after quiescence",
-         "Client-boundary history of sequential and concurrent (8/16 clients) mixed requests with a scraper running throughout; porcupine checks the history of these phases (request = increment inside its interval, scrape = read) partitioned by (method, code), up to the last quiescent moment before the burst phase; after every burst the scraped totals must equal the responses received so far; after quiescence the scraped totals must equal the client tally and the gauge be 0; gauge bounded by overlapping operations on every scrape; scrapes must complete while proofs are in flight; one request stays in flight for 33 s (130 s thorough); with six requests held inside the handler a scrape must be answered and show them; 250 (1500) bursts of 8-32 cheap concurrent requests each followed by a quiescent scrape whose gauge must read 0. Held on the histories recorded.",
+         "Client-boundary history of sequential and concurrent (8/16 clients) mixed requests with a scraper running throughout; porcupine checks the history of these phases (request = increment inside its interval, scrape = read) partitioned by (method, code), up to the last quiescent moment before the burst phase; after every burst the scraped totals must equal the responses received so far; after quiescence the scraped totals must equal the client tally and the gauge be 0; gauge bounded by overlapping operations on every scrape; scrapes must complete while proofs are in flight; one request stays in flight for 33 s (130 s thorough); with six requests held inside the handler a scrape must be answered and show them; 250 (1500) bursts of 8-32 cheap concurrent requests each followed by a quiescent scrape whose gauge must read 0; 3 (8) successive server instances inside one process, each required to account for exactly the responses it sent (scrape-after minus scrape-before) with the gauge present and 0. Held on the histories recorded.",
          "Assumes promhttp increments before the handler chain returns and small responses are flushed afterwards (checked implicitly: otherwise porcupine would reject the unchanged tree).",
          "DESIGN.md §C20"),
  "C12": ("climon", "exploration",
@@ -37,12 +37,12 @@ CHECKS = {
          "DESIGN.md §C17"),
  "C19": ("climon", "exploration",
          "runtime monitor: real binary in fresh processes; stdout/exit-status oracle from in-monitor Groth16 verification",
-         "setup -> gen-test-params | prove -> verify on real keys files; prove on independently written documents (short roots, four number styles) with stdout required to be exactly one proof; verify on CLI proofs, re-randomised valid derivatives (short coordinates first, hashes with odd hex length), tampered/reordered/sign-flipped proofs, wrong hashes, other-mode keys, garbage; unprovable parameters; six mode spellings (incl. absent) on six commands; missing/empty/truncated/directory keys; gen-test-params over dimensions up to the full tree; setup re-run over a path that already holds the other mode's keys. Held on the invocations made.",
+         "setup -> gen-test-params | prove -> verify on real keys files (incl. a dimension whose parameter document exceeds 4 KiB; > 64 KiB in thorough); prove on independently written documents (short roots, four number styles) with stdout required to be exactly one proof; verify on CLI proofs, re-randomised valid derivatives (short coordinates first, hashes with odd hex length), tampered/reordered/sign-flipped proofs, wrong hashes, other-mode keys, garbage; unprovable parameters; six mode spellings (incl. absent) on six commands; missing/empty/truncated/directory keys; gen-test-params over dimensions up to the full tree; setup re-run over a path that already holds the other mode's keys. Held on the invocations made.",
          "Verify oracle = gnark Verify with the vk from export-vk.",
          "DESIGN.md §C19"),
  "C03": ("circmon", "exploration",
          "runtime monitor: full compiled circuits solved with chosen public inputs and forged bit-decomposition hints vs. independent on-chain packing + Keccak",
-         "Full insertion/deletion circuits (one- and two-block hash inputs) are solved for valid batches with the keccak of the canonical packing (must accept) and with hashes of single-field perturbations, other valid batches, alternative encodings, and - with the decomposition hint replaced - of the forged bytes v+k*r for every admissible k (incl. v=0), other values and non-boolean digits (must all reject); an insertion circuit of depth 33 must reject start indices >= 2^32 for every public input; the rejecting constraint is recorded. Public wires checked to be exactly [1, InputHash]. Held on the executions produced.",
+         "Full insertion/deletion circuits (one- and two-block hash inputs) are solved for valid batches with the keccak of the canonical packing (must accept) and with hashes of single-field perturbations, other valid batches, alternative encodings, and - with the decomposition hint replaced - of the forged bytes v+k*r for every admissible k (incl. v=0), other values and non-boolean digits (must all reject); an insertion circuit of depth 33 must reject start indices >= 2^32 for every public input; the rejecting constraint is recorded. A table-free dishonest prover discovers every hint call of the full circuit at run time, forges each with generic perturbations and tries the public input the rejecting constraint asks for (must reject). Public wires checked to be exactly [1, InputHash]. Held on the executions produced.",
          "Trusts x/crypto Keccak, the packing written from the property statement, gnark's solver, the structure audit.",
          "DESIGN.md §3.1, §C03"),
  "C07": ("provmon", "exploration",
@@ -67,7 +67,7 @@ CHECKS = {
          "DESIGN.md §C11"),
  "C15": ("provmon", "fault_enumeration",
          "fault enumeration at run time: every cut offset of small files, boundaries and samples of real files, CLI on truncated files",
-         "Every strict prefix (all byte offsets) of several small proving-system files in both formats, and boundary/PRNG offsets of real 60-90 MB files, are fed to UnsafeReadFrom / ReadSystemFromFile under recover() and a watchdog: outcome must be an error. The complete file is loaded through the file reader first, then its prefixes. about 20 prefixes delivered slowly through named pipes (end-of-file 12 s / 35 s after the last byte) must be rejected like the fast ones; CLI commands on six truncated files must exit non-zero within their watchdog without crash marks in their output, and start must not stay up. Exhaustive per small file; sampled for real files.",
+         "Every strict prefix (all byte offsets) of several small proving-system files in both formats, and boundary/PRNG offsets plus buffer-size multiples (512 B .. 16 MiB) of real 60-90 MB files, are fed to UnsafeReadFrom / ReadSystemFromFile under recover() and a watchdog: outcome must be an error. The complete file is loaded through the file reader first, then its prefixes. about 20 prefixes delivered slowly through named pipes (end-of-file 12 s / 35 s after the last byte) must be rejected like the fast ones; CLI commands on six truncated files must exit non-zero within their watchdog without crash marks in their output, and start must not stay up. Exhaustive per small file; sampled for real files.",
          "Assumes truncation = strict prefix; small files share the layout of real ones.",
          "DESIGN.md §C15"),
  "C01": ("circmon", "exploration",
@@ -82,12 +82,12 @@ CHECKS = {
          "DESIGN.md §3.1, §C02"),
  "C04": ("circmon", "exploration",
          "runtime monitor: gadget executed in gnark's test engine and as compiled R1CS, digest compared with x/crypto sha3",
-         "Every byte length 0..409 (all residues mod 136 in 1-4 blocks; 0..817 thorough) plus production lengths, six content kinds, both domains: the reference digest must be accepted and a flipped bit / the other domain's digest rejected. Compiled R1CS at boundary lengths; a harness hashing several sub-slices of one buffer inside one circuit (engine and compiled). Held on the messages produced.",
+         "Every byte length 0..409 (all residues mod 136 in 1-4 blocks; 0..817 thorough) plus production lengths, six content kinds, both domains: the reference digest must be accepted and a flipped bit / the other domain's digest rejected. Compiled R1CS at boundary lengths; a harness hashing several sub-slices of one buffer inside one circuit (engine and compiled). Dishonest prover: every hint call the compiled gadget makes is discovered at run time and answered with forged values, digest wires read through a probe (the pinned gadget makes none: recorded). Held on the messages produced.",
          "Trusts golang.org/x/crypto/sha3 and gnark's test engine; only byte-aligned messages.",
          "DESIGN.md §C04"),
  "C05": ("circmon", "exploration",
          "runtime monitor: gadget solved as compiled R1CS (and in the test engine) vs. iden3 Poseidon and published vectors",
-         "Poseidon1/Poseidon2 harnesses solved on specials (0,1,2,r-1,r-2,2^k,2^k-1 for all k), all small pairs, sparse/dense and uniform elements, with the reference digest (accept) and reference+1 (reject); harnesses calling the gadgets repeatedly on shared bare inputs and on derived, re-used expressions (compiled and in the engine) expose aliasing and in-place updates; compile-time constants as gadget inputs; circuits defined concurrently. Held on the inputs produced.",
+         "Poseidon1/Poseidon2 harnesses solved on specials (0,1,2,r-1,r-2,2^k,2^k-1 for all k), all small pairs, sparse/dense and uniform elements, with the reference digest (accept) and reference+1 (reject); harnesses calling the gadgets repeatedly on shared bare inputs and on derived, re-used expressions (compiled and in the engine) expose aliasing and in-place updates; compile-time constants as gadget inputs; circuits defined concurrently; every hint call of the compiled gadgets discovered and forged (none on the pinned tree: recorded). Held on the inputs produced.",
          "Trusts iden3 go-iden3-crypto Poseidon, anchored to two published circomlib vectors at run time.",
          "DESIGN.md §C05"),
  "C06": ("circmon", "exploration",
